@@ -9,7 +9,11 @@ import (
 
 func unexpired(c *x509.Certificate, t time.Time) bool { return !t.After(c.NotAfter) }
 
-func h06(getCollateral, checkRev, nilNow bool) {
+func h06(getCollateral, checkRev, nilNow bool) { h06u(getCollateral, checkRev, nilNow, false) }
+
+// used: the same options value verified the quote before, at other (arbitrary) times; what it
+// concluded then says nothing about the times asked about now.
+func h06u(getCollateral, checkRev, nilNow, used bool) {
 	nDist := 0
 	if checkRev {
 		nDist = 1
@@ -23,6 +27,12 @@ func h06(getCollateral, checkRev, nilNow bool) {
 		modelNow = symTime("wallclock")
 		opts.Now = nil
 		now = &TimeSet{PckCertChain: modelNow, TcbInfo: modelNow, QeIdentity: modelNow, PckCrl: modelNow, RootCaCrl: modelNow}
+	}
+	if used {
+		later := opts.Now
+		opts.Now = symTimeSet("earlier")
+		vp.Reach("earlier-verification-accepted", TdxQuote(quote, opts) == nil)
+		opts.Now = later
 	}
 	err := TdxQuote(quote, opts)
 	ok := err == nil
@@ -63,3 +73,7 @@ func H06c_revocation()        { h06(true, true, false) }
 func H06d_base_defaultTime()  { h06(false, false, true) }
 func H06e_coll_defaultTime()  { h06(true, false, true) }
 func T06f_rev_defaultTime()   { h06(true, true, true) }
+
+// H06g: the expiry conditions on an options value that verified the same quote at earlier times.
+func H06g_ReusedOptions_collateral() { h06u(true, false, false, true) }
+func T06h_ReusedOptions_revocation() { h06u(true, true, false, true) }
